@@ -47,7 +47,7 @@ func runReplay(c *checker, path string) {
 		vlib.Infra("replay: unknown edit %q", rp.Edit)
 	}
 	var cl *dnsgen.Client
-	for _, x := range dnsgen.Clients(true) {
+	for _, x := range dnsgen.ClientsX(true, true) {
 		if locName(x) == rp.Loc {
 			x := x
 			cl = &x
